@@ -1151,6 +1151,197 @@ func nestedStructStream(r *vh.Rng, n, reps int, sum *vh.Summary) {
 	}
 }
 
+// ---- maps whose ELEMENT size sits at the runtime's direct/indirect storage boundary (128 bytes) ----
+
+type E120 struct{ A [15]uint64 }
+type E127 struct{ A [127]byte }
+type E128 struct {
+	P *int
+	A [15]uint64
+}
+type E128b struct{ A [16]uint64 }
+type E129 struct{ A [129]byte }
+type E136 struct {
+	P *int
+	A [16]uint64
+}
+
+func fillElem(v reflect.Value, seed int) {
+	switch v.Kind() {
+	case reflect.Struct:
+		for i := 0; i < v.NumField(); i++ {
+			fillElem(v.Field(i), seed+i)
+		}
+	case reflect.Array:
+		for i := 0; i < v.Len(); i++ {
+			fillElem(v.Index(i), seed*31+i)
+		}
+	case reflect.Uint64:
+		v.SetUint(uint64(seed)*0x9E3779B97F4A7C15 + 1)
+	case reflect.Uint8:
+		v.SetUint(uint64(seed%251 + 1))
+	case reflect.Ptr:
+		x := seed + 1000
+		v.Set(reflect.ValueOf(&x))
+	}
+}
+
+func bigElemStream(r *vh.Rng, rounds int, sum *vh.Summary) {
+	elems := []reflect.Type{reflect.TypeOf(E120{}), reflect.TypeOf(E127{}), reflect.TypeOf(E128{}), reflect.TypeOf(E128b{}), reflect.TypeOf(E129{}), reflect.TypeOf(E136{})}
+	keys := []reflect.Type{reflect.TypeOf(int(0)), reflect.TypeOf(""), reflect.TypeOf(uint32(0)), reflect.TypeOf(int64(0)), reflect.TypeOf(KInt(0))}
+	for round := 0; round < rounds; round++ {
+		for _, format := range vh.Formats {
+			for _, et := range elems {
+				for _, kt := range keys {
+					o := vh.Opts{"Canonical": true}
+					if round > 0 {
+						o = vh.RandEncOpts(r, format)
+						o["Canonical"] = true
+						delete(o, "StringToRaw") // strings written as bytes do not come back as the same strings
+					}
+					h := vh.NewHandle(format, o)
+					on := vh.Opts{}
+					for k, v := range o {
+						on[k] = v
+					}
+					on["Canonical"] = false
+					hn := vh.NewHandle(format, on)
+					mt := reflect.MapOf(kt, et)
+					n := 1 + (round+int(et.Size()))%5
+					build := func() reflect.Value {
+						m := reflect.MakeMap(mt)
+						for _, i := range randPerm(r, n) {
+							k := reflect.New(kt).Elem()
+							if kt.Kind() == reflect.String {
+								k.SetString(fmt.Sprintf("k%d", i))
+							} else if kt.Kind() == reflect.Uint32 {
+								k.SetUint(uint64(i * 7))
+							} else {
+								k.SetInt(int64(i*13 - 20))
+							}
+							e := reflect.New(et).Elem()
+							fillElem(e, i+1)
+							m.SetMapIndex(k, e)
+						}
+						return m
+					}
+					orig := build()
+					cj := map[string]interface{}{"format": format, "opts": o.String(), "key": kt.String(), "elem": et.String(), "elemsize": et.Size(), "n": n}
+					canon, e1 := encBytes(h, build().Interface())
+					canon2, _ := encBytes(h, build().Interface())
+					plain, e2 := encBytes(hn, orig.Interface())
+					if e1 != nil || e2 != nil {
+						cj["e1"], cj["e2"] = fmt.Sprint(e1), fmt.Sprint(e2)
+						sum.FailC("bigelem", fmt.Sprintf("encode-error:elemsize%d", et.Size()), "Encode of a map with a large element type failed", cj)
+						continue
+					}
+					d1, d2 := reflect.New(mt), reflect.New(mt)
+					x1 := codec.NewDecoderBytes(canon, h).Decode(d1.Interface())
+					x2 := codec.NewDecoderBytes(plain, hn).Decode(d2.Interface())
+					cls := fmt.Sprintf("elemsize%d", et.Size())
+					switch {
+					case !bytes.Equal(canon, canon2):
+						sum.FailC("bigelem", "canonical-nondeterministic:"+cls, "Canonical encodings of equal maps with large elements differ", cj)
+					case x1 != nil || x2 != nil:
+						cj["x1"], cj["x2"] = fmt.Sprint(x1), fmt.Sprint(x2)
+						sum.FailC("bigelem", "decode:"+cls, "canonical / plain bytes of a map with large elements do not decode", cj)
+					case !reflect.DeepEqual(d1.Elem().Interface(), d2.Elem().Interface()):
+						cj["canonical"], cj["plain"] = vh.Hex(canon), vh.Hex(plain)
+						sum.FailC("bigelem", "decode-differs:"+cls, "Decode(canonical) differs from Decode(non-canonical) for a map with large elements", cj)
+					case !reflect.DeepEqual(d1.Elem().Interface(), orig.Interface()):
+						cj["canonical"] = vh.Hex(canon)
+						sum.FailC("bigelem", "roundtrip:"+cls, "canonical bytes of a map with large elements do not decode to the encoded value", cj)
+					}
+					sum.Count("bigelem."+format, fmt.Sprintf("bigelem/%s/%s/%s/%d", format, kt, et, n))
+				}
+			}
+		}
+	}
+}
+
+// ---- out-of-band keys that themselves contain maps with out-of-band keys (re-entrant side encoding) ----
+
+type OK struct {
+	ID   int
+	Tags map[[2]int8]string
+}
+
+func okSig(k *OK) string {
+	ts := make([]string, 0, len(k.Tags))
+	for t, v := range k.Tags {
+		ts = append(ts, fmt.Sprintf("%d.%d=%s", t[0], t[1], v))
+	}
+	sort.Strings(ts)
+	return fmt.Sprintf("%d{%s}", k.ID, strings.Join(ts, ","))
+}
+
+func nestedKeyStream(r *vh.Rng, rounds, reps int, sum *vh.Summary) {
+	for round := 0; round < rounds; round++ {
+		for _, format := range vh.Formats {
+			o := vh.Opts{"Canonical": true}
+			if round > 0 {
+				o = vh.RandEncOpts(r, format)
+				o["Canonical"] = true
+				delete(o, "StructToArray")
+				delete(o, "StringToRaw")
+			}
+			h := vh.NewHandle(format, o)
+			nk, nt := 2+round%4, 1+(round/2)%4
+			build := func() map[*OK]string {
+				m := map[*OK]string{}
+				for _, i := range randPerm(r, nk) {
+					k := &OK{ID: i * 3, Tags: map[[2]int8]string{}}
+					for _, j := range randPerm(r, nt) {
+						k.Tags[[2]int8{int8(j - 1), int8(i)}] = fmt.Sprintf("tag-%d-%d", i, j)
+					}
+					m[k] = fmt.Sprintf("value-%d", i)
+				}
+				return m
+			}
+			want := map[string]string{}
+			for k, v := range build() {
+				want[okSig(k)] = v
+			}
+			cj := map[string]interface{}{"format": format, "opts": o.String(), "keys": nk, "tags": nt}
+			var first []byte
+			for q := 0; q < reps+3; q++ {
+				out, err := encBytes(h, build())
+				if err != nil {
+					cj["err"] = fmt.Sprint(err)
+					sum.FailC("nestedkey", "encode-error:nested-oob-keys", "Canonical Encode of a map whose out-of-band keys contain maps with out-of-band keys failed", cj)
+					break
+				}
+				if first == nil {
+					first = out
+				} else if !bytes.Equal(first, out) {
+					cj["first"], cj["got"] = vh.Hex(first), vh.Hex(out)
+					sum.FailC("nestedkey", "canonical-nondeterministic:nested-oob-keys", "Canonical encodings of equal maps whose keys contain maps differ", cj)
+					break
+				}
+				if format == "json" {
+					continue // a json object key cannot be a struct
+				}
+				var back map[*OK]string
+				if err := codec.NewDecoderBytes(out, h).Decode(&back); err != nil {
+					cj["err"], cj["bytes"] = fmt.Sprint(err), vh.Hex(out)
+					sum.FailC("nestedkey", "decode:nested-oob-keys", "canonical bytes of a map whose keys contain maps do not decode", cj)
+					break
+				}
+				got := map[string]string{}
+				for k, v := range back {
+					got[okSig(k)] = v
+				}
+				if !reflect.DeepEqual(got, want) {
+					cj["bytes"], cj["got"], cj["want"] = vh.Hex(out), fmt.Sprint(got), fmt.Sprint(want)
+					sum.FailC("nestedkey", "roundtrip:nested-oob-keys", "canonical bytes of a map whose keys contain maps decode to a different value", cj)
+					break
+				}
+			}
+			sum.Count("nestedkey."+format, fmt.Sprintf("nestedkey/%s/%d/%d", format, nk, nt))
+		}
+	}
+}
+
 func main() {
 	nNStruct := flag.Int("nstruct", 40, "nested maps with long struct keys")
 	nMaps := flag.Int("maps", 500, "maps (model-compared)")
@@ -1160,13 +1351,15 @@ func main() {
 	cases := flag.String("cases", "/verif/build/c08/cases", "directory for the model case files")
 	flag.Parse()
 	r := vh.NewRng(vh.SeedFromEnv())
-	sum := vh.NewSummary("maps: 33 key kinds (float64/float32 maps holding one NaN key, interface{} keys mixing arrays/structs with scalars under json MapKeyAsString / simple EncZeroValuesAsNil, named int/string/int16 keys with Text / Binary / Selfer hooks, string, named string, intN, named int, uintN, uintptr, named uint, float32/64, named float, bool, time, time keys inside one second, time in several zones, struct, array, interface{} with distinct / with shared encodings, named fast-path map) x 5 formats x random options x sizes 1..24 x 3 insertion permutations x reps fresh Encoders x 4 goroutines x bytes/io (fresh io Encoder, the same Encoder after 1-3 Resets with WriterBufferSize 0/16/64/1024, twice in a row on one Encoder); distinct by (key kind, format, size, ties). struct: MissingFielder struct (declared fields always present / all omitempty with 0, 1, several or all present) x extra-field sets rebuilt in random order. structint: a struct with integer keys and MissingFielder extras (canonical = non-canonical after Decode). nested: maps/lists to depth 3 rebuilt in random insertion orders. nstruct: map[struct]map[struct]string and map[struct][]byte with 20-60 byte keys, up to 12x12, identical bytes across rebuilds and DeepEqual after Decode")
+	sum := vh.NewSummary("maps: 33 key kinds (float64/float32 maps holding one NaN key, interface{} keys mixing arrays/structs with scalars under json MapKeyAsString / simple EncZeroValuesAsNil, named int/string/int16 keys with Text / Binary / Selfer hooks, string, named string, intN, named int, uintN, uintptr, named uint, float32/64, named float, bool, time, time keys inside one second, time in several zones, struct, array, interface{} with distinct / with shared encodings, named fast-path map) x 5 formats x random options x sizes 1..24 x 3 insertion permutations x reps fresh Encoders x 4 goroutines x bytes/io (fresh io Encoder, the same Encoder after 1-3 Resets with WriterBufferSize 0/16/64/1024, twice in a row on one Encoder); distinct by (key kind, format, size, ties). struct: MissingFielder struct (declared fields always present / all omitempty with 0, 1, several or all present) x extra-field sets rebuilt in random order. structint: a struct with integer keys and MissingFielder extras (canonical = non-canonical after Decode). nested: maps/lists to depth 3 rebuilt in random insertion orders. bigelem: map[int|string|uint32|int64|named int]E with sizeof(E) in {120,127,128,129,136} (canonical fetches values by key). nestedkey: map[*K]string whose keys hold a map with array keys (re-entrant out-of-band encoding). nstruct: map[struct]map[struct]string and map[struct][]byte with 20-60 byte keys, up to 12x12, identical bytes across rebuilds and DeepEqual after Decode")
 	cv := vh.NewCases(*cases, "From Coq Require Import List NArith ZArith.\nFrom Verif Require Import C08.Model C08.Corr.\nImport ListNotations.", "case", "mismatches", 60)
 	id := mapsStream(r.Fork(), *nMaps, *reps, cv, sum, 0)
 	id = structStream(r.Fork(), *nStruct, *reps, cv, sum, id)
 	structIntStream(r.Fork(), *nStruct/3+8, *reps, cv, sum, id)
 	nestedStream(r.Fork(), *nNested, *reps, sum)
 	nestedStructStream(r.Fork(), *nNStruct, *reps, sum)
+	bigElemStream(r.Fork(), 1+*nNStruct/40, sum)
+	nestedKeyStream(r.Fork(), 4+*nNStruct/10, *reps, sum)
 	cv.Close()
 	sum.Print()
 }
